@@ -23,7 +23,7 @@ func init() {
 		Rule: "user sets are drawn from an 8-spec pool containing DNs that are prefixes of one another (cn=a, cn=ab, 'cn=a,dc=x'), a duplicate DN with a different password, a user without a password attribute, " +
 			"an empty first password, several password values, and a case variant; EXHAUSTIVE for all user sets of size <= 2 x 9 bind DNs (pool DNs, case variants, empty, bytes) x 5 passwords (incl. empty) x both " +
 			"AllowAnonymousBind settings, plus random larger sets, plus user sets reached through sequences of LDAP Add and Delete requests, over plain, TLS and StartTLS-upgraded connections (raw client; go-ldap as a second client on a sample). " +
-			"Oracle: result code == (pw==\"\" && anon) || exists user u with u.DN == dn and first password value == pw ? 0 : 49. Set* calls happen between binds (and, in one scenario, all the time with unchanged values). Passwords include same-length near misses whose byte-wise differences cancel out; every third user set also asks a sample of its questions two at a time (two BindRequests in one write). The pool also has a 200-byte password (tried with its 128-byte prefix and another tail), passwords with NUL bytes, an entry named like a userPrincipalName login (the directory runs with Defaults.UPNDomain), entries built as literals or with values assigned after construction, a password that looks like a BER-wrapped string (and BER-wrapped forms of other passwords as bind attempts), group entries that carry a password attribute (one of them with the DN of a pool user); the directory's response controls cycle through none / Behera grace, expiry and three error codes / a critical string control. " +
+			"Oracle: result code == (pw==\"\" && anon) || exists user u with u.DN == dn and first password value == pw ? 0 : 49. Set* calls happen between binds (and, in one scenario, all the time with unchanged values). Passwords include same-length near misses whose byte-wise differences cancel out; every third user set also asks a sample of its questions two at a time (two BindRequests in one write). The pool also has a 200-byte password (tried with its 128-byte prefix and another tail), passwords with NUL bytes, an entry named like a userPrincipalName login (the directory runs with Defaults.UPNDomain), entries built as literals or with values assigned after construction, a password that looks like a BER-wrapped string (and BER-wrapped forms of other passwords as bind attempts), group entries that carry a password attribute (one of them with the DN of a pool user); users whose DNs are not well-formed DNs (alice; uid=bob,,dc=example,dc=org); the directory's response controls cycle through none / Behera grace, expiry and three error codes / a critical string control. " +
 			"distinct_nontrivial = distinct (user set, anon, dn, password) cases",
 		Assume: []string{"the directory is configured through SetUsers / SetAllowAnonymousBind between binds (sequential use)"},
 		Phases: func(tier string, seed int64) []Phase {
